@@ -68,6 +68,13 @@ struct SimAlloc {
 	uint64_t total_fired = 0;
 	uint64_t total_reqs = 0;
 	uint64_t foreign_frees = 0; // the installed free function was handed a pointer the installed malloc never returned
+	// canary mode (per-run knob): every block gets CANARY_BYTES guard bytes behind it, checked when the block
+	// comes back and at the end of the run. ASan cannot see a write made by an uninstrumented library
+	// (libcrypto, gnutls, jansson) into a block libjwt sized; the guard bytes can.
+	bool canary = false;
+	uint64_t canary_hits = 0;
+	size_t canary_block = 0, canary_off = 0; // first hit: block size, offset of the first damaged byte past the end
+	void check_live_canaries();
 	// parse tracking
 	int in_parse = 0;
 	uint64_t parse_reqs = 0;
